@@ -261,7 +261,12 @@ class RecGSC:
         v = self.inner(tree)
         r = self.rec
         where = "deme" if r.stack else "tree"
-        r.emit(e="gsc", v=bool(v), where=where, deme=r.cur(), m=int(tree.metaepoch_count), snap=r.snap(tree), total=int(tree.n_evaluations))
+        # the condition must be consulted with the tree; if the caller hands over something else the consult is still recorded (against
+        # the real tree's state) so that the monitors can judge what the run did with the answer
+        t = tree if hasattr(tree, "_levels") else getattr(r, "tree", None)
+        if t is None:
+            return v
+        r.emit(e="gsc", v=bool(v), where=where, deme=r.cur(), m=int(t.metaepoch_count), snap=r.snap(t), total=int(t.n_evaluations), arg_is_tree=t is tree)
         return v
 
     def __str__(self):
@@ -359,6 +364,7 @@ def run_spec(spec, mode="run", probes=None, shared=None):
     tree = None
     try:
         tree = tree_mod.DemeTree(cfg)
+        rec.tree = tree
         rec.emit(e="init", snap=rec.snap(tree), bests=bests(tree), m=0)
         if probes and "after_init" in probes:
             probes["after_init"](tree, rec, info)
